@@ -1792,6 +1792,14 @@ impl<'a> Query<'a> {
             s += " ?";
             s += name;
         }
+        if !self.assignments.is_empty() {
+            s += " WITH\n";
+            for assignment in self.assignments() {
+                s.push('\t');
+                s += &assignment.to_string()?;
+                s.push('\n');
+            }
+        }
         if !self.constraints.is_empty() {
             s += " WHERE\n";
             for (constraint, attributes) in self.constraints_with_attributes() {
@@ -4506,6 +4514,53 @@ pub enum Assignment<'a> {
 }
 
 impl<'a> Assignment<'a> {
+    /// Serialize the assignment to a (partial) STAMQL String
+    pub fn to_string(&self) -> Result<String, StamError> {
+        match self {
+            Self::Id(id) => Ok(format!("ID \"{}\";", id)),
+            Self::Target { name, offset } => {
+                if let Some(offset) = offset {
+                    Ok(format!(
+                        "TARGET ?{} OFFSET {} {};",
+                        name, offset.begin, offset.end
+                    ))
+                } else {
+                    Ok(format!("TARGET ?{};", name))
+                }
+            }
+            Self::ComplexTarget(SelectorKind::CompositeSelector) => Ok("COMPOSITE;".to_string()),
+            Self::ComplexTarget(SelectorKind::MultiSelector) => Ok("MULTI;".to_string()),
+            Self::ComplexTarget(SelectorKind::DirectionalSelector) => {
+                Ok("DIRECTIONAL;".to_string())
+            }
+            Self::Data { set, key, value } => match value {
+                DataValue::Null => Ok(format!("DATA \"{}\" \"{}\";", set, key)),
+                DataValue::String(value) => {
+                    Ok(format!("DATA \"{}\" \"{}\" \"{}\";", set, key, value))
+                }
+                DataValue::Bool(_) | DataValue::Int(_) => {
+                    Ok(format!("DATA \"{}\" \"{}\" {};", set, key, value))
+                }
+                DataValue::Float(value) => Ok(format!(
+                    "DATA \"{}\" \"{}\" {};",
+                    set,
+                    key,
+                    DataOperator::EqualsFloat(*value)
+                        .to_string()?
+                        .trim_start_matches("= ")
+                )),
+                _ => Err(StamError::QuerySyntaxError(
+                    format!("There is no query syntax for this value: {:?}", value),
+                    "Assignment::to_string()",
+                )),
+            },
+            _ => Err(StamError::QuerySyntaxError(
+                format!("There is no query syntax for this assignment: {:?}", self),
+                "Assignment::to_string()",
+            )),
+        }
+    }
+
     pub(crate) fn parse(mut querystring: &'a str) -> Result<(Self, &'a str), StamError> {
         let assignment = match querystring.split(QUERYSPLITCHARS).next() {
             Some("ID") => {
